@@ -333,6 +333,12 @@ func c04Scenario(p c04P, b Bounds) *Scenario {
 							noise = `{"jsonrpc":"2.0","method":"srvnote"}`
 						case "callback", "callback+hook":
 							noise = fmt.Sprintf(`{"jsonrpc":"2.0","id":%s,"method":"srvcall"}`, fid) // same id text as an in-flight client request
+						case "badreq-noversion": // server requests that are invalid but keep the id text of an in-flight client request
+							noise = fmt.Sprintf(`{"id":%s,"method":"srvcall"}`, fid)
+						case "badreq-extra":
+							noise = fmt.Sprintf(`{"jsonrpc":"2.0","id":%s,"method":"srvcall","extra":1}`, fid)
+						case "badreq-params":
+							noise = fmt.Sprintf(`{"jsonrpc":"2.0","id":%s,"method":"srvcall","params":5}`, fid)
 						case "strid":
 							noise = fmt.Sprintf(`{"jsonrpc":"2.0","id":"%s","result":"STRID"}`, fid)
 						case "floatid":
@@ -523,7 +529,7 @@ func perms(n int) [][]int {
 	return out
 }
 
-var c04Noises = []string{"dup", "unknown", "badversion", "noid", "notify", "notify+hook", "callback", "callback+hook", "strid", "floatid"}
+var c04Noises = []string{"dup", "unknown", "badversion", "noid", "notify", "notify+hook", "callback", "callback+hook", "strid", "floatid", "badreq-noversion", "badreq-extra", "badreq-params"}
 
 // c04SendFault: one Send fails transiently (the channel and the client stay alive) while a Call and a
 // two-call Batch are being issued concurrently; a further Call follows. The peer withholds every answer
